@@ -235,7 +235,76 @@ func blankString(s string) bool {
 // ---------------------------------------------------------------- reset and pools (history independence)
 
 //@ extern sync.(*Pool).Get() (result any)
-//@ trusted sync.Pool: returns some previously Put value or a new one; no effect on the heap the contracts speak about
+//@ trusted sync.Pool: returns some previously Put value or a new one; no effect on the heap the contracts speak about. Pool invariant (assumed): the three encoder pools only ever hold non-nil *Encoder values and the decoder pools non-nil *Decoder values (their New functions and every Put in pools.go)
+//@ ensures encoder-pools: recv == bufferedEncoderPool || recv == streamingEncoderPool || recv == bytesBufferEncoderPool ==> isPooledEncoder(result) && asPooledEncoder(result) != nil
+//@ ensures prevlen-is-a-length: isPooledEncoder(result) && asPooledEncoder(result) != nil ==> 0 <= asPooledEncoder(result).s.bufStats.prevLen && asPooledEncoder(result).s.bufStats.prevLen < 1<<60
+//@ ensures decoder-pools: recv == bufferedDecoderPool || recv == streamingDecoderPool || recv == bytesBufferDecoderPool ==> isPooledDecoder(result) && asPooledDecoder(result) != nil
+
+//@ extern bits.Len(x uint) (result int)
+//@ trusted math/bits: the minimum number of bits required to represent x
+//@ ensures 0 <= result && result <= 64 && (x >= 32 ==> result >= 6) && (x < 1<<60 ==> result <= 60)
+
+//@ spec isPooledEncoder
+func isPooledEncoder(x any) bool {
+	_, ok := x.(*Encoder)
+	return ok
+}
+
+//@ spec asPooledEncoder
+func asPooledEncoder(x any) *Encoder {
+	e, _ := x.(*Encoder)
+	return e
+}
+
+//@ spec isPooledDecoder
+func isPooledDecoder(x any) bool {
+	_, ok := x.(*Decoder)
+	return ok
+}
+
+//@ spec asPooledDecoder
+func asPooledDecoder(x any) *Decoder {
+	d, _ := x.(*Decoder)
+	return d
+}
+
+// get*Encoder / get*Decoder: whatever coder the pool hands out and whatever it was
+// last used for, the caller receives it in the initial state: no buffered output
+// (nothing of an earlier, possibly failed, call can precede this call's output),
+// offset zero, empty stacks, and the writer/reader and buffer of this call.
+//
+//@ func getStreamingEncoder
+//@ property C07 C18 C20
+//@ requires vForall(0, len(opts), func(i int) bool { return isStructOpt(opts[i]) ==> asStructOpt(opts[i]) != nil })
+//@ modifies everything
+//@ ensures nonnil: result != nil
+//@ ensures empty: len(result.s.Buf) == 0
+//@ ensures initial: result.s.baseOffset == 0 && result.s.wr == w && len(result.s.Tokens.Stack) == 0 && result.s.Tokens.Last == stateTypeArray && len(result.s.Names.offsets) == 0 && len(result.s.Namespaces) == 0
+
+//@ func getBufferedEncoder
+//@ property C07 C18 C20
+//@ theory bv
+//@ requires vForall(0, len(opts), func(i int) bool { return isStructOpt(opts[i]) ==> asStructOpt(opts[i]) != nil })
+//@ modifies everything
+//@ ensures nonnil: result != nil
+//@ ensures empty: len(result.s.Buf) == 0
+//@ ensures initial: result.s.baseOffset == 0 && result.s.wr == nil && len(result.s.Tokens.Stack) == 0 && result.s.Tokens.Last == stateTypeArray && len(result.s.Names.offsets) == 0 && len(result.s.Namespaces) == 0
+
+//@ func getBufferedDecoder
+//@ property C05 C18 C20
+//@ requires vForall(0, len(opts), func(i int) bool { return isStructOpt(opts[i]) ==> asStructOpt(opts[i]) != nil })
+//@ modifies everything
+//@ ensures nonnil: result != nil
+//@ ensures buffer: sameSlice(result.s.buf, b) && result.s.rd == nil
+//@ ensures initial: result.s.baseOffset == 0 && result.s.prevStart == 0 && result.s.prevEnd == 0 && result.s.peekPos == 0 && result.s.peekErr == nil && len(result.s.Tokens.Stack) == 0 && result.s.Tokens.Last == stateTypeArray && len(result.s.Names.offsets) == 0 && len(result.s.Namespaces) == 0
+
+//@ func getStreamingDecoder
+//@ property C05 C18 C20
+//@ requires vForall(0, len(opts), func(i int) bool { return isStructOpt(opts[i]) ==> asStructOpt(opts[i]) != nil })
+//@ modifies everything
+//@ ensures nonnil: result != nil
+//@ ensures empty: len(result.s.buf) == 0 && result.s.rd == r
+//@ ensures initial: result.s.baseOffset == 0 && result.s.prevStart == 0 && result.s.prevEnd == 0 && result.s.peekPos == 0 && result.s.peekErr == nil && len(result.s.Tokens.Stack) == 0 && result.s.Tokens.Last == stateTypeArray && len(result.s.Names.offsets) == 0 && len(result.s.Namespaces) == 0
 
 //@ extern sync.(*Pool).Put(x any)
 //@ trusted sync.Pool: retains x; no effect on the heap the contracts speak about
